@@ -56,7 +56,11 @@ impl Parser {
         let Some(value_node) = value_node else {
             let expected_return_type = input.user_data().get_return_type();
 
-            if let Some(expected_return_type) = expected_return_type.get_type() {
+            // a function without a declared result yields `void`: that is what a blank "return" returns
+            if let Some(expected_return_type) = expected_return_type
+                .get_type()
+                .filter(|ty| !matches!(ty.as_ref(), super::TypeLayout::Void))
+            {
                 // #0
                 return Err(vec![new_err(
                     input.as_span(),
